@@ -71,6 +71,7 @@ type seqRun struct {
 	lastStatus   nfstypes.Nfsstat3
 	dumpFiles    [][]byte // handles of the regular files the last dumpTree saw
 	probeBlocks  int      // size of the file the post-crash probe writes
+	flushLocks   bool     // drop the events recorded so far when a request starts (uncounted helper requests ran before it)
 }
 
 // fsckPoint dumps the logical disk for the structure checker: background freeing finished,
@@ -145,6 +146,9 @@ func (s *seqRun) guarded(desc string, f func()) bool {
 	}
 	if s.fsckDue && !s.inline {
 		s.fsckPoint("periodic")
+	}
+	if s.flushLocks && s.locks && !s.inline {
+		takeSeqEvents()
 	}
 	if s.inline {
 		s.curDesc = desc
